@@ -960,7 +960,7 @@ def gen_program(rnd, depth, focus=None, isolation=False, templates=None,
                                             np.nan)
                         if vals.size >= 1 and np.isfinite(vals).all() and \
                                 (vals == np.round(vals)).all() and \
-                                not np.ma.is_masked(v[...]):
+                                not isinstance(v[...], np.ma.MaskedArray):
                             cands.append((i + 1, [int(x) for x in vals]))
                 if cands:
                     o, vals = rnd.choice(cands)
